@@ -430,6 +430,31 @@ def merged_items(I, v, cond=TRUE):
     return out
 
 
+def len_truth_norm(t):
+    """len(x) > 0 / != 0 / >= 1 is the truth value of x (and == 0 / < 1 / <= 0 its negation), for any sized x"""
+    m = {}
+    for x in walk(t):
+        if isinstance(x, Op) and x.op in ("gt", "ne", "ge", "eq", "le", "lt") and len(x.args) == 2 and isinstance(x.args[0], Op) \
+                and x.args[0].op == "len" and is_int(x.args[1]):
+            inner, c = x.args[0].args[0], x.args[1].v
+            if (x.op, c) in (("gt", 0), ("ne", 0), ("ge", 1)):
+                m[x] = inner if not isinstance(inner, (Ref, Const)) else Op("truthy", inner)
+            elif (x.op, c) in (("eq", 0), ("le", 0), ("lt", 1)):
+                m[x] = not_(inner if not isinstance(inner, (Ref, Const)) else Op("truthy", inner))
+    t = subst(t, m) if m else t
+
+    def cond(c):
+        """a bare len(x) in condition position"""
+        if isinstance(c, Op) and c.op in ("and", "or"):
+            return (and_ if c.op == "and" else or_)(*[cond(a) for a in c.args])
+        if isinstance(c, Op) and c.op == "not":
+            return not_(cond(c.args[0]))
+        if isinstance(c, Op) and c.op == "len" and not isinstance(c.args[0], (Ref, Const)):
+            return c.args[0]
+        return c
+    return cond(t)
+
+
 def stops_always(L):
     """the loop is left in its first iteration on every path (break / return conditions are jointly exhaustive)"""
     if any(b == TRUE for b in L.stops):
